@@ -37,9 +37,10 @@ class SimRaw(io.RawIOBase):
         n = len(b)
         if fs.chunk:
             n = min(n, fs.chunk)
-        if fault and fault["kind"] == "eio" and fault["file"] == self.name_:
+        if fault and fault["kind"] == "eio" and fault["file"] == self.name_ and not (fault.get("once") and fs.eio_spent):
             if self.pos >= fault["offset"]:
                 fs.stats["eio_fired"] += 1
+                fs.eio_spent = True  # a transient error ("once") is over after it has been reported; a persistent one repeats
                 raise OSError(errno.EIO, "simulated I/O error", self.name_)
             n = min(n, fault["offset"] - self.pos)
         chunk = self.data[self.pos : self.pos + n]
@@ -56,6 +57,7 @@ class SimFS:
         self.files: dict[str, bytes] = {}
         self.chunk = 0
         self.fault = None
+        self.eio_spent = False
         self.stats = {"is_file": 0, "stat": 0, "opens": 0, "raw_reads": 0, "short_reads": 0, "eio_fired": 0, "vanish_fired": 0, "interrupt_fired": 0}
         self._installed = False
         self._answered_true: set = set()
@@ -65,6 +67,7 @@ class SimFS:
         self.files = dict(files)
         self.chunk = chunk
         self.fault = fault
+        self.eio_spent = False
         self._answered_true = set()
 
     @staticmethod
